@@ -6,7 +6,8 @@ package restic_test
 // of length 0, 1, 7, 63 (odd lengths = half-byte boundaries), containing the
 // all-zero ID and the all-'f' ID.  Every ORDERED list of 0..4 distinct IDs of
 // the universe (2081 lists; a superset of "every set of <= 4 in both list
-// orders") is served by a Lister; for every list the real restic.Find is called
+// orders") is served by a Lister; for every list the real restic.Find is called (directly and
+// through restic.MemorizeList, the lister the commands resolve snapshot IDs against)
 // with every prefix of length 0..64 of every universe ID (also of the IDs that
 // are not in the list = non-matching prefixes), every universe ID extended by
 // one more character (over-long), and a few strings that are no hex prefix.
@@ -200,6 +201,29 @@ func TestVerif_C57(t *testing.T) {
 				continue
 			}
 			got = verifC57Classify(gotID, gotErr)
+			// the same lookup through the memorizing lister (restic.MemorizeList), which is what the commands
+			// resolve snapshot IDs against: it must agree
+			if got == want {
+				var mID restic.ID
+				var mErr error
+				if pn, msg := vh.NoPanic(func() {
+					ml, err := restic.MemorizeList(context.Background(), lister, restic.SnapshotFile)
+					if err != nil {
+						mErr = err
+						return
+					}
+					mID, mErr = restic.Find(context.Background(), ml, restic.SnapshotFile, p)
+				}); pn {
+					r.Violationf(ck, fmt.Sprintf("C57|panic|memorized|%s|prefix=%s", ck, p), map[string]any{"list": hexes, "prefix": p}, "Find over MemorizeList panicked: %s", msg)
+					continue
+				}
+				if mgot := verifC57Classify(mID, mErr); mgot != want {
+					r.Violationf(ck, fmt.Sprintf("C57|memorized-lister|want=%s|got=%s|matching=%d|listed=%d", verifC57Short(want), verifC57Short(mgot), len(matches), len(ids)),
+						map[string]any{"list_in_listing_order": hexes, "prefix": p, "want": want, "got": mgot, "err": fmt.Sprint(mErr)},
+						"Find(prefix %q) through restic.MemorizeList over listing %v: expected %s, got %s (the plain lister gives the expected answer)", p, names, want, mgot)
+					continue
+				}
+			}
 			r.Eval(1)
 			r.Transition(int64(len(ids)))
 			r.Outcome(verifC57Short(want) + "/" + verifC57Short(got))
